@@ -127,7 +127,7 @@ Theorem C25_range_no_internal_error :
   wf_dag (br_g b) = true -> br_tip b = Some t -> t < length (br_g b) ->
   lefthand_present (br_g b) t = true ->
   snd (calc_view b start end_ forward gen_merge delayed excl) <> Some StartNotLinearAncestor.
-Proof. exact calc_view_no_internal_error. Qed.
+Proof. intros b t st en fw gm dl ex W T L P. apply (calc_view_no_internal_error b t W T L P). Qed.
 Print Assumptions C25_range_no_internal_error.
 
 (* what _is_obvious_ancestor promises: the start revision is on the left-hand
@@ -137,5 +137,5 @@ Theorem C25_obvious_ancestor_is_linear :
   wf_dag (br_g b) = true -> br_tip b = Some t -> t < length (br_g b) ->
   lefthand_present (br_g b) t = true ->
   is_obvious_ancestor b (Some s) end_ = true -> snd (linear_view b (Some s) end_ excl) = None.
-Proof. exact obvious_is_linear. Qed.
+Proof. intros b t s en ex W T L P. apply (obvious_is_linear b t W T L P). Qed.
 Print Assumptions C25_obvious_ancestor_is_linear.
